@@ -615,6 +615,13 @@ func calculateHashes(numLeaves uint64, delHashes []Hash, proof Proof) (hashAndPo
 			// the next proof hash to calculate the parent.
 			sibHash = proof.Proof[proofHashIdx]
 			proofHashIdx++
+
+			// An existing node never has an empty hash. Accepting one would
+			// move the current hash up a row and prove it for a position
+			// that it isn't in.
+			if sibHash == empty {
+				return hashAndPos{}, nil, fmt.Errorf("invalid proof. Proof has an empty hash.")
+			}
 		}
 
 		// Calculate the next hash.
